@@ -23,7 +23,7 @@ type c08Rec struct {
 func c08s(v interface{}) string { s, _ := v.(string); return s }
 
 func (r *c08Rec) Run(t *task.Task) error {
-	m := map[string]string{"stage": c08s(t.Env.Get("STAGE")), "envK": c08s(t.Env.Get("K")), "envT": c08s(t.Env.Get("T")),
+	m := map[string]string{"stage": c08s(t.Variables.Get(".Stage.Name")), "envK": c08s(t.Env.Get("K")), "envT": c08s(t.Env.Get("T")),
 		"varK": c08s(t.Variables.Get("K")), "varT": c08s(t.Variables.Get("T")), "dir": t.Dir}
 	time.Sleep(60 * time.Millisecond)
 	r.mu.Lock()
@@ -47,6 +47,7 @@ func TestVerifReplayC08(t *testing.T) {
 	str := func(k string) string { s, _ := sc.Inputs[k].(string); return s }
 	arr := int(sc.Args[0])
 	vt, wt, v0, w0, v1 := str("task.env.K"), str("task.var.K"), str("s0.env.K"), str("s0.var.K"), str("s1.env.K")
+	w3 := str("s3.var.K")
 	def := &taskDefinition{Name: "tk", Command: []string{"true"}, Dir: "/task-dir",
 		Env: map[string]string{"K": vt, "T": "task-only"}, Variables: map[string]string{"K": wt, "T": "task-var"}}
 	tk, err := buildTask(def, &loaderContext{Dir: "/proj"})
@@ -55,11 +56,12 @@ func TestVerifReplayC08(t *testing.T) {
 	}
 	cfg := NewConfig()
 	cfg.Tasks["tk"] = tk
-	deps := [][][]string{{nil, nil, nil}, {nil, {"s0"}, {"s1"}}, {{"s1"}, {"s2"}, nil}, {nil, {"s0"}, {"s0"}}}[arr]
+	deps := [][][]string{{nil, nil, nil, nil}, {nil, {"s0"}, {"s1"}, {"s2"}}, {{"s1"}, {"s2"}, {"s3"}, nil}, {nil, {"s0"}, {"s0"}, {"s0"}}}[arr]
 	sds := []*stageDefinition{
-		{Name: "s0", Task: "tk", DependsOn: deps[0], Dir: "/s0-dir", Env: map[string]string{"K": v0, "STAGE": "s0"}, Variables: map[string]string{"K": w0}},
-		{Name: "s1", Task: "tk", DependsOn: deps[1], Env: map[string]string{"K": v1, "STAGE": "s1"}},
-		{Name: "s2", Task: "tk", DependsOn: deps[2], Env: map[string]string{"STAGE": "s2"}},
+		{Name: "s0", Task: "tk", DependsOn: deps[0], Dir: "/s0-dir", Env: map[string]string{"K": v0}, Variables: map[string]string{"K": w0}},
+		{Name: "s1", Task: "tk", DependsOn: deps[1], Env: map[string]string{"K": v1}},
+		{Name: "s2", Task: "tk", DependsOn: deps[2]},
+		{Name: "s3", Task: "tk", DependsOn: deps[3], Variables: map[string]string{"K": w3}},
 	}
 	g, _ := scheduler.NewExecutionGraph()
 	g, err = buildPipeline(g, sds, cfg)
@@ -67,7 +69,7 @@ func TestVerifReplayC08(t *testing.T) {
 		t.Fatal(err)
 	}
 	g2, _ := scheduler.NewExecutionGraph()
-	g2, _ = buildPipeline(g2, []*stageDefinition{{Name: "other", Task: "tk", Env: map[string]string{"STAGE": "other"}}}, cfg)
+	g2, _ = buildPipeline(g2, []*stageDefinition{{Name: "other", Task: "tk"}}, cfg)
 	rec := &c08Rec{}
 	sd := scheduler.NewScheduler(rec)
 	sd.Schedule(g)
@@ -80,13 +82,15 @@ func TestVerifReplayC08(t *testing.T) {
 			wantEnvK, wantVarK, wantDir = v0, w0, "/s0-dir"
 		case "s1":
 			wantEnvK = v1
+		case "s3":
+			wantVarK = w3
 		}
 		if m["envK"] != wantEnvK || m["envT"] != "task-only" || m["varK"] != wantVarK || m["varT"] != "task-var" || m["dir"] != wantDir {
 			bad = append(bad, fmt.Sprintf("stage %s saw %v, want envK=%s varK=%s dir=%s", m["stage"], m, wantEnvK, wantVarK, wantDir))
 		}
 	}
 	d := cfg.Tasks["tk"]
-	if c08s(d.Env.Get("K")) != vt || d.Env.Has("STAGE") || c08s(d.Variables.Get("K")) != wt || d.Dir != "/task-dir" {
+	if c08s(d.Env.Get("K")) != vt || d.Variables.Has(".Stage.Name") || c08s(d.Variables.Get("K")) != wt || d.Dir != "/task-dir" {
 		bad = append(bad, fmt.Sprintf("a direct run now sees env K=%v STAGE=%v var K=%v dir=%s", d.Env.Get("K"), d.Env.Get("STAGE"), d.Variables.Get("K"), d.Dir))
 	}
 	fmt.Printf("REPLAY: runs=%v\n", rec.runs)
